@@ -403,6 +403,7 @@ def stepTraits (s : St) (ws : List String) : Option (St × List String) :=
   let w := s.w
   let bad : Option (St × List String) := some (s, ["bad-op"])
   match ws with
+  | ["dbg"] => some (ok s w [] none)       -- `Debug` of every live object: no effect
   | ["clone_from", d, src] =>
     match handle 'v' d, handle 'v' src with
     | some d, some i =>
